@@ -3,7 +3,7 @@
 Theorems: coq/Props/C08.v (for every plan, back end, failure oracle and event trace).
 Fault enumeration on the real mloda, by construction of generated universes: for EVERY step of every generated plan as
 the failing step x fault kinds {calculation raises, input validation False, output validation False, declared-type
-mismatch, transform raises, merge raises, missing api_data key} x modes {SYNC, THREADING, (MULTIPROCESSING sample)}
+mismatch, transform raises, merge raises, missing api_data key, empty api_data on a session prepared with api data} x modes {SYNC, THREADING, (MULTIPROCESSING sample)}
 x {run, stream_run}.  Observed: the API call raises, the exception carries the original message, within a wall-clock
 bound, and nothing is returned.  T2: failing SYNC traces are replayed through the model (chk_sync with the failing step
 as oracle).
@@ -78,6 +78,8 @@ def run_fault(spec: Dict[str, Any], fault: Dict[str, Any], mode_name: str, strea
         REC.fail_steps = {u for u, s in u2s.items() if s == fault["sid"]}
     elif fault["kind"] == "api_missing":
         kw["api_data"] = {"OTHER_KEY": {"zz": [1]}}
+    elif fault["kind"] == "api_empty":
+        kw["api_data"] = {}      # the session was prepared WITH api data; this run is given none: it must not fall back silently
     if mode_name == "MULTIPROCESSING":
         from harness.orch import flight_server
         kw["flight_server"] = flight_server()
@@ -90,7 +92,7 @@ def run_fault(spec: Dict[str, Any], fault: Dict[str, Any], mode_name: str, strea
     if o["status"] == "raised":
         txt = str(o["exc"])
         res["carries_message"] = fault["msg"] in txt or (fault["kind"] in ("validate_in", "validate_out") and "False" in txt) \
-            or (fault["kind"] == "api_missing" and "not found" in txt) or (fault["kind"] == "type" and "DataTypeMismatch" in txt)
+            or (fault["kind"] == "api_missing" and "not found" in txt) or (fault["kind"] == "api_empty" and "api data" in txt.lower()) or (fault["kind"] == "type" and "DataTypeMismatch" in txt)
         res["exc_tail"] = txt[-160:]
     elif o["status"] == "ok":
         res["n_results"] = len(o["result"]) if o.get("result") is not None else None
@@ -153,6 +155,9 @@ def run(rep: vlib.Reporter, tier: str, seed: int) -> None:
                 for mode_name in ("SYNC", "THREADING"):
                     r = run_fault(aspec, {"kind": "api_missing", "sid": 0, "msg": "not found"}, mode_name, False)
                     cases.append({"spec": aspec, "fault": {"kind": "api_missing"}, "mode": mode_name, "stream": False, **r})
+                    for stream in (False, True):
+                        r = run_fault(aspec, {"kind": "api_empty", "sid": 0, "msg": "No api data"}, mode_name, stream)
+                        cases.append({"spec": aspec, "fault": {"kind": "api_empty"}, "mode": mode_name, "stream": stream, **r})
             except Exception as e:  # noqa: BLE001
                 rep.notes.append(f"api variant not runnable: {str(e)[:100]}")
         # declared type mismatch on a requested derived feature
@@ -188,7 +193,7 @@ def run(rep: vlib.Reporter, tier: str, seed: int) -> None:
             found = True
         else:
             dist["raised_with_message"] += 1
-        if c["mode"] == "SYNC" and not c["stream"] and c["plan"] is not None and c["fault"]["kind"] not in ("api_missing",):
+        if c["mode"] == "SYNC" and not c["stream"] and c["plan"] is not None and c["fault"]["kind"] not in ("api_missing", "api_empty"):
             sync_idx.append(i)
             sync_terms.append(f"({cq_plan(c['plan'])}, ({cq_list(cq_nat(x) for x in c['begin'])}, {cq_nat(min(c['scans'], 4000))}, "
                               f"{cq_status(c['status'])}, {cq_list(cq_nat(x) for x in c['raised'])}))")
